@@ -7,6 +7,7 @@ per-instance by construction and every row of the real batched environment is co
 -/
 import Rl4co.Env.Cvrptw
 import Rl4co.Props.C04.Cvrp
+import Rl4co.Props.C01.Cvrptw
 import Rl4co.Props.C02.Cvrptw
 
 namespace Rl4co.Cvrptw
@@ -37,7 +38,9 @@ theorem pad_noop (i : Inst) (h00 : i.base.D 0 0 = 0) (hE : 0 ≤ i.twE 0) (s : S
   · subst hb0
     have h1 : canReach i s 0 = true := hm'.2
     have h2 : canReach i (env.step i s 0) 0 = true := by
-      simp [canReach, env, step, refresh, Cvrp.step, Params.cvrptwMaskTwCmp, Cmp.eval, h00, hE]
+      have ht : (env.step i s 0).time = 0 := by rw [step_time]; simp
+      have hc : (env.step i s 0).base.cur = 0 := rfl
+      simp [canReach, ht, hc, Params.cvrptwMaskTwCmp, Cmp.eval, h00, hE]
     rw [h1, h2]
   · simp [hb0]
 
